@@ -567,7 +567,9 @@ BOUNDED = [Bounded("angular_data_unit_vector_average", _B.angular_data,
            Bounded("periodic_axis_end_to_end", _B.periodic_axis, "default periodic coordinates of dataset.py; the proved kernels composed on real xarray data"),
            Bounded("dataframe_time", _B.dataframe_time, "column rule of interpolate_dataframe_time"),
            Bounded("track_time", _B.track_time, "Track.interpolate: longitude periodic, latitude plain, end positions"),
-           Bounded("gridded_at_track_points", _B.gridded_at_points, "interpolate_at_points / interpolate_track_data_arrray across the antimeridian")]
+           Bounded("gridded_at_track_points", _B.gridded_at_points, "interpolate_at_points / interpolate_track_data_arrray across the antimeridian"),
+           Bounded("angular_variable_selection", __import__("contracts.C14_selection_bounded", fromlist=["x"]).angular_variable_selection,
+                   "interpolate_dataset with several direction variables; interpolate_dataset_grid uses the mapping it builds / is given")]
 TRUSTED = ["infinite values are outside the model: every non-NaN float of these contracts is finite (contract option finite_reals)",
            "possibly-NaN floats are pairs (real, flag) with IEEE propagation through + - * / % and comparisons (pyvc.terms.XR)",
            "boolean-mask selection/assignment x[m] = f(y[m]) acts cell by cell on the cells where m holds (masks proved identical)",
